@@ -10,6 +10,7 @@ import (
 	"testing"
 
 	"pgregory.net/rapid"
+	"verif.local/kit/refsecp"
 	vs "verif.local/kit/stat"
 	"verif.local/kit/transcript"
 )
@@ -87,6 +88,21 @@ func c03HostileScalar(rt *rapid.T, label string) *big.Int {
 		secp256k1halfN, new(big.Int).Add(secp256k1halfN, big.NewInt(1)), c03P,
 	}
 	return hostile[rapid.IntRange(0, len(hostile)-1).Draw(rt, label)]
+}
+
+// values of s around the low-s limit floor(n/2) (and the ends of the range).
+var c03BoundaryS = []struct {
+	name string
+	s    *big.Int
+	low  bool
+}{
+	{"s=n/2", secp256k1halfN, true},
+	{"s=n/2-1", new(big.Int).Sub(secp256k1halfN, big.NewInt(1)), true},
+	{"s=1", big.NewInt(1), true},
+	{"s=2", big.NewInt(2), true},
+	{"s=n/2+1", new(big.Int).Add(secp256k1halfN, big.NewInt(1)), false},
+	{"s=n/2+2", new(big.Int).Add(secp256k1halfN, big.NewInt(2)), false},
+	{"s=n-1", new(big.Int).Sub(secp256k1N, big.NewInt(1)), false},
 }
 
 func c03Key(d *big.Int) *ecdsa.PrivateKey {
@@ -303,7 +319,40 @@ func TestVerifC03Backend(t *testing.T) {
 			mhash := hash
 			r := new(big.Int).SetBytes(sig[:32])
 			s := new(big.Int).SetBytes(sig[32:64])
-			switch rapid.IntRange(0, 9).Draw(rt, "sigMut") {
+			switch rapid.IntRange(0, 11).Draw(rt, "sigMut") {
+			case 10, 11:
+				// (genuine r, chosen s at the low-s limit, either recovery id) is a signature by the
+				// key Q = r^-1 (s*R - z*G). For s <= n/2 both backends must recover exactly the Q that
+				// the independent reference (kit/refsecp) derives, and verify it; above the limit only
+				// agreement (transcript) and "if it recovers, it is Q" are required.
+				bs := c03BoundaryS[rapid.IntRange(0, len(c03BoundaryS)-1).Draw(rt, "boundaryS")]
+				if rapid.Bool().Draw(rt, "boundaryExact") {
+					bs = c03BoundaryS[0]
+				}
+				recid := byte(rapid.IntRange(0, 1).Draw(rt, "boundaryRecid"))
+				class = "recover: boundary " + bs.name
+				copy(msig[32:64], c03Pad32(bs.s))
+				msig[64] = recid
+				q, ok := refsecp.Recover(mhash, r, bs.s, recid)
+				if !ok {
+					rt.Fatalf("VERIF-HARNESS-BUG: reference recovery failed for hash=%x sig=%x", mhash, msig)
+				}
+				refPub := append([]byte{4}, refsecp.Uncompressed(q)...)
+				rec, err := Ecrecover(mhash, msig)
+				okv := VerifySignature(refPub, mhash, msig[:64])
+				okc := VerifySignature(refsecp.Compress(q), mhash, msig[:64])
+				tr.Linef("%d boundary %s hash=%x sig=%x -> %s verify=%v/%v", id, bs.name, mhash, msig, c03BytesStr(rec, err), okv, okc)
+				if err == nil && !bytes.Equal(rec, refPub) {
+					rt.Fatalf("Ecrecover(%x, %x) = %x, reference recovery gives %x", mhash, msig, rec, refPub)
+				}
+				if bs.low {
+					if err != nil {
+						rt.Fatalf("Ecrecover(%x, %x) failed for a low-s signature (%s): %v; reference key %x", mhash, msig, bs.name, err, refPub)
+					}
+					if !okv || !okc {
+						rt.Fatalf("VerifySignature(%x, %x, %x) = %v/%v for a valid low-s signature (%s)", refPub, mhash, msig[:64], okv, okc, bs.name)
+					}
+				}
 			case 0:
 				class = "recover: bit flip in r|s"
 				msig[rapid.IntRange(0, 63).Draw(rt, "flipByte")] ^= 1 << uint(rapid.IntRange(0, 7).Draw(rt, "flipBit"))
@@ -437,4 +486,52 @@ func TestVerifC03Backend(t *testing.T) {
 	if tr != nil {
 		st.Note("transcript lines written: %d", tr.Lines())
 	}
+}
+
+// TestVerifC03ValidateValues enumerates crypto.ValidateSignatureValues (the range / low-s
+// gate in front of every sender recovery) over boundary values against the rule it stands
+// for: v in {0,1}, 1 <= r < n, 1 <= s < n, and under homestead rules s <= floor(n/2).
+func TestVerifC03ValidateValues(t *testing.T) {
+	vs.OnlyShard0(t)
+	st := vs.New("C03", t)
+	n, half := secp256k1N, secp256k1halfN
+	add := func(x *big.Int, k int64) *big.Int { return new(big.Int).Add(x, big.NewInt(k)) }
+	type bv struct {
+		name string
+		x    *big.Int
+	}
+	pool := []bv{
+		{"0", big.NewInt(0)}, {"1", big.NewInt(1)}, {"2", big.NewInt(2)}, {"n/2-1", add(half, -1)}, {"n/2", half}, {"n/2+1", add(half, 1)}, {"n/2+2", add(half, 2)},
+		{"n-2", add(n, -2)}, {"n-1", add(n, -1)}, {"n", n}, {"n+1", add(n, 1)}, {"p", c03P}, {"2^256-1", add(c03Two256, -1)}, {"2^256", c03Two256}, {"2^256+n/2", new(big.Int).Add(c03Two256, half)},
+	}
+	// a few seed-dependent interior values on either side of the limit
+	seedv := new(big.Int).SetBytes(Keccak256([]byte(fmt.Sprintf("c03-validate-%d", vs.Seed()))))
+	pool = append(pool, bv{"random low", add(new(big.Int).Mod(seedv, half), 1)}, bv{"random high", add(new(big.Int).Add(half, new(big.Int).Mod(seedv, add(half, -1))), 1)})
+	cnt := 0
+	for _, r := range pool {
+		for _, s := range pool {
+			for _, v := range []byte{0, 1, 2, 3, 4, 26, 27, 28, 35, 128, 255} {
+				for _, homestead := range []bool{false, true} {
+					c := st.Case()
+					cnt++
+					want := (v == 0 || v == 1) && r.x.Sign() > 0 && r.x.Cmp(n) < 0 && s.x.Sign() > 0 && s.x.Cmp(n) < 0 && (!homestead || s.x.Cmp(half) <= 0)
+					r0, s0 := new(big.Int).Set(r.x), new(big.Int).Set(s.x)
+					got := ValidateSignatureValues(v, r0, s0, homestead)
+					if got != want {
+						t.Fatalf("ValidateSignatureValues(v=%d, r=%s (%x), s=%s (%x), homestead=%v) = %v, want %v", v, r.name, r.x, s.name, s.x, homestead, got, want)
+					}
+					if r0.Cmp(r.x) != 0 || s0.Cmp(s.x) != 0 {
+						t.Fatalf("ValidateSignatureValues modified its arguments")
+					}
+					if want {
+						c.Class("validate: accepted s=" + s.name)
+					} else {
+						c.Class("validate: refused")
+					}
+					c.NonTrivial(true, fmt.Sprintf("validate|%d|%s|%s|%v", v, r.name, s.name, homestead))
+				}
+			}
+		}
+	}
+	st.Exhaustive(fmt.Sprintf("ValidateSignatureValues over %d boundary values of r x the same for s x 11 v bytes x both rule sets (%d calls)", len(pool), cnt))
 }
